@@ -30,19 +30,20 @@ class Raised(Exception):
 
 SAFE_BUILTINS = {
     "len": len, "range": range, "enumerate": enumerate, "str": str, "int": int, "list": list, "tuple": tuple, "sum": sum, "max": max, "min": min,
-    "dedent": textwrap.dedent, "zip": zip, "sorted": sorted, "repr": repr, "bool": bool, "abs": abs, "reversed": reversed, "ord": ord, "chr": chr, "set": set, "frozenset": frozenset, "any": any, "all": all, "dict": dict, "map": map, "filter": filter, "bytes": bytes, "bytearray": bytearray, "divmod": divmod,
+    "dedent": textwrap.dedent, "indent": textwrap.indent, "zip": zip, "next": next, "iter": iter, "sorted": sorted, "repr": repr, "bool": bool, "abs": abs, "reversed": reversed, "ord": ord, "chr": chr, "set": set, "frozenset": frozenset, "any": any, "all": all, "dict": dict, "map": map, "filter": filter, "bytes": bytes, "bytearray": bytearray, "divmod": divmod,
 }
 SAFE_METHODS = {
     str: {"encode", "isdigit", "isalpha", "isalnum", "isnumeric", "isidentifier", "isspace", "join", "strip", "lstrip", "rstrip", "format", "startswith", "endswith", "split", "replace", "upper", "lower", "partition"},
     int: {"bit_length", "to_bytes"},
-    list: {"index", "count", "copy", "append", "extend", "insert", "pop"},
+    list: {"index", "count", "copy", "append", "extend", "insert", "pop", "clear", "remove", "reverse", "sort"},
     set: {"union", "intersection", "difference", "issubset", "issuperset", "copy"},
     frozenset: {"union", "intersection", "difference", "issubset", "issuperset"},
     tuple: {"index", "count"},
-    dict: {"get", "keys", "values", "items", "setdefault", "update"},
+    dict: {"get", "keys", "values", "items", "setdefault", "update", "pop", "popitem", "copy", "clear"},
     bytearray: {"append", "extend"},
     bytes: {"hex", "startswith", "endswith", "decode", "join", "find", "index", "split", "partition"},
 }
+_SAFE_STATIC = {("int", "from_bytes"): (int, int.from_bytes), ("bytes", "fromhex"): (bytes, bytes.fromhex), ("str", "join"): (str, str.join)}
 _BIN = {
     ast.Add: lambda a, b: a + b, ast.Sub: lambda a, b: a - b, ast.Mult: lambda a, b: a * b, ast.FloorDiv: lambda a, b: a // b,
     ast.Mod: lambda a, b: a % b, ast.Pow: lambda a, b: a ** b if not (isinstance(b, int) and b > 4096) else (_ for _ in ()).throw(Refused("pow too large")),
@@ -73,12 +74,67 @@ class Sym:
         return hash(self.label)
 
 
+def _own_nodes(fn: ast.AST):
+    """Nodes of a function body without those of nested functions / lambdas / classes."""
+    stack = list(ast.iter_child_nodes(fn))
+    while stack:
+        n = stack.pop()
+        yield n
+        if not isinstance(n, (ast.FunctionDef, ast.AsyncFunctionDef, ast.Lambda, ast.ClassDef)):
+            stack.extend(ast.iter_child_nodes(n))
+
+
 class UserFunc:
     """A function of the analysed repository given as AST; calling it interprets its body with this evaluator."""
 
-    def __init__(self, node: ast.FunctionDef, env: dict[str, Any] | None = None):
+    def __init__(self, node: ast.FunctionDef, env: dict[str, Any] | None = None, closure: bool = False):
         self.node = node
-        self.env = env or {}
+        self.env = env if env is not None else {}
+        self.closure = closure  # env is the live frame of the enclosing function: read at call time, written through 'nonlocal'
+        decos = {norm(d).split(".")[-1] for d in getattr(node, "decorator_list", [])}
+        self.static = "staticmethod" in decos
+        self.classmethod = "classmethod" in decos
+        self.property = bool(decos & {"property", "cached_property"})
+        self.generator = any(isinstance(n, (ast.Yield, ast.YieldFrom)) for n in _own_nodes(node))
+
+
+class GenList:
+    """Result of calling a generator function of the interpreted fragment: evaluated eagerly, handed out once (like a generator, a second
+    iteration yields nothing).  Storing it in a variable for later is refused - only immediate consumption is the same eagerly and lazily."""
+
+    def __init__(self, items: list):
+        self.items = items
+        self.consumed = False
+
+    def __iter__(self):
+        if self.consumed:
+            return iter(())
+        self.consumed = True
+        return iter(self.items)
+
+
+class ClassObj:
+    """A class of the analysed repository given as AST: calling it makes a symbolic instance and interprets ``__init__``."""
+
+    _n = 0
+
+    def __init__(self, node: ast.ClassDef, env: dict[str, Any]):
+        self.node, self.env = node, env
+        self.methods: dict[str, UserFunc] = {}
+        self.attrs: dict[str, Any] = {}
+        for b in node.bases:
+            base = env.get(norm(b))
+            if isinstance(base, ClassObj):
+                self.methods.update(base.methods)
+                self.attrs.update(base.attrs)
+            elif norm(b) not in ("object",):
+                self.opaque_base = norm(b)
+        for st in node.body:
+            if isinstance(st, ast.FunctionDef):
+                self.methods[st.name] = UserFunc(st, env)
+
+    def __repr__(self) -> str:
+        return f"<class {self.node.name}>"
 
 
 class Host:
@@ -150,6 +206,14 @@ class Evaluator:
                     raise Refused(f"missing keyword {kw.arg}")
                 bound[kw.arg] = self.ev(d, env)
         env.update(bound)
+        env.pop("__nonlocal__", None)
+        env["__outer__"] = f.env if f.closure else None
+        if f.generator:
+            out: list = []
+            env["__yield__"] = out
+            self.run(f.node.body, env)
+            return GenList(out)
+        env["__yield__"] = None
         r = self.run(f.node.body, env)
         return r[1]
 
@@ -238,13 +302,28 @@ class Evaluator:
             return v[self.ev(e.slice, env)]
         if isinstance(e, ast.Attribute) and isinstance(e.value, ast.Name) and e.value.id == "dict" and e.attr == "fromkeys" and "dict" not in env:
             return dict.fromkeys
+        if isinstance(e, ast.Attribute) and isinstance(e.value, ast.Name) and (e.value.id, e.attr) in _SAFE_STATIC and env.get(e.value.id, _SAFE_STATIC[(e.value.id, e.attr)][0]) is _SAFE_STATIC[(e.value.id, e.attr)][0]:
+            return _SAFE_STATIC[(e.value.id, e.attr)][1]
         if isinstance(e, ast.Attribute):
             v = self.ev(e.value, env)
             if isinstance(v, Sym):
                 if e.attr in v.attrs:
                     return v.attrs[e.attr]
                 if e.attr in v.methods:
+                    m = v.methods[e.attr]
+                    if isinstance(m, UserFunc) and m.property:
+                        return self.call_user(m, [v], {})
                     return ("symmethod", v, e.attr)
+                if getattr(v, "strict", True):
+                    raise Refused(f"attribute {e.attr} of {v}")
+                raise AttributeError(f"{v} has no attribute {e.attr}")
+            if isinstance(v, ClassObj):
+                if e.attr in v.attrs:
+                    return v.attrs[e.attr]
+                if e.attr in v.methods and (v.methods[e.attr].static or v.methods[e.attr].classmethod):
+                    return ("classmethod", v, e.attr)
+                if e.attr == "__name__":
+                    return v.node.name
                 raise Refused(f"attribute {e.attr} of {v}")
             for t, names in SAFE_METHODS.items():
                 if isinstance(v, t) and e.attr in names:
@@ -267,6 +346,20 @@ class Evaluator:
                     kwargs.update(more)
             if isinstance(f, UserFunc):
                 return self.call_user(f, args, kwargs)
+            if isinstance(f, ClassObj):
+                if getattr(f, "opaque_base", None):
+                    raise Refused(f"class {f.node.name} derives from {f.opaque_base}")
+                ClassObj._n += 1
+                inst = Sym(f"{f.node.name}#{ClassObj._n}", dict(f.attrs), dict(f.methods))
+                inst.cls = f
+                if "__init__" in f.methods:
+                    self.call_user(f.methods["__init__"], [inst, *args], kwargs)
+                elif args or kwargs:
+                    raise Raised("TypeError: takes no arguments")
+                return inst
+            if isinstance(f, tuple) and f and f[0] == "classmethod":
+                m = f[1].methods[f[2]]
+                return self.call_user(m, args if m.static else [f[1], *args], kwargs)
             if isinstance(f, Host):
                 return f.fn(*args, **kwargs)
             if isinstance(f, LambdaFn):
@@ -278,13 +371,20 @@ class Evaluator:
             if isinstance(f, tuple) and f and f[0] == "symmethod":
                 m = f[1].methods[f[2]]
                 if isinstance(m, UserFunc):
+                    if m.static:
+                        return self.call_user(m, args, kwargs)
+                    if m.classmethod:
+                        return self.call_user(m, [getattr(f[1], "cls", f[1]), *args], kwargs)
                     return self.call_user(m, [f[1], *args], kwargs)
                 if isinstance(m, Host):
                     return m.fn(*args, **kwargs)
                 return m(*args, **kwargs) if callable(m) else m
             if f == dict.fromkeys:
                 return dict.fromkeys(*args)
+            if any(f is v_[1] for v_ in _SAFE_STATIC.values()):
+                return f(*[list(a_) if isinstance(a_, GenList) else a_ for a_ in args], **kwargs)
             if f in SAFE_BUILTINS.values() or (hasattr(f, "__self__") and type(f.__self__) in SAFE_METHODS and f.__name__ in SAFE_METHODS[type(f.__self__)]):
+                args = [list(a_) if isinstance(a_, GenList) else a_ for a_ in args]
                 r = f(*args, **kwargs)
                 if isinstance(r, (range, enumerate, zip, map, filter)) or type(r).__name__ in ("dict_keys", "dict_values", "dict_items", "reversed", "list_reverseiterator"):
                     r = list(r)
@@ -320,7 +420,22 @@ class Evaluator:
 
     def _bind(self, target: ast.AST, value: Any, env: dict[str, Any]) -> None:
         if isinstance(target, ast.Name):
+            if isinstance(value, GenList):
+                raise Refused("a generator object is stored for later (evaluated eagerly here)")
             env[target.id] = value
+            if target.id in env.get("__nonlocal__", ()):
+                outer = env.get("__outer__")
+                if outer is None:
+                    raise Refused("nonlocal without an enclosing frame")
+                outer[target.id] = value
+                if target.id in outer.get("__nonlocal__", ()) and outer.get("__outer__") is not None:
+                    outer["__outer__"][target.id] = value
+        elif isinstance(target, ast.Subscript) and isinstance(target.slice, ast.Slice):
+            box = self.ev(target.value, env)
+            if not isinstance(box, list):
+                raise Refused("slice store on a non-list")
+            sl = target.slice
+            box[(self.ev(sl.lower, env) if sl.lower else None):(self.ev(sl.upper, env) if sl.upper else None)] = list(value)
         elif isinstance(target, ast.Attribute):
             box = self.ev(target.value, env)
             if not isinstance(box, Sym):
@@ -383,7 +498,7 @@ class Evaluator:
                 self._bind(st.target, self.ev(st.value, env), env)
             elif isinstance(st, ast.AugAssign) and isinstance(st.target, ast.Name):
                 cur = env.get(st.target.id)
-                env[st.target.id] = _BIN[type(st.op)](cur, self.ev(st.value, env))
+                self._bind(st.target, _BIN[type(st.op)](cur, self.ev(st.value, env)), env)
             elif isinstance(st, ast.AugAssign) and isinstance(st.target, (ast.Attribute, ast.Subscript)) and type(st.op) in _BIN:
                 cur = self.ev(st.target, env)
                 self._bind(st.target, _BIN[type(st.op)](cur, self.ev(st.value, env)), env)
@@ -444,6 +559,27 @@ class Evaluator:
                     if nm not in provided:
                         raise Refused(f"import of {al.name}")
                     env[nm] = provided[nm]
+            elif isinstance(st, ast.FunctionDef):
+                env[st.name] = UserFunc(st, env, closure=True)
+            elif isinstance(st, ast.Nonlocal):
+                env["__nonlocal__"] = set(env.get("__nonlocal__", ())) | set(st.names)
+            elif isinstance(st, ast.Expr) and isinstance(st.value, (ast.Yield, ast.YieldFrom)):
+                sink = env.get("__yield__")
+                if sink is None:
+                    raise Refused("yield outside an interpreted generator")
+                if isinstance(st.value, ast.Yield):
+                    sink.append(self.ev(st.value.value, env) if st.value.value is not None else None)
+                else:
+                    sink.extend(self.ev(st.value.value, env))
+            elif isinstance(st, ast.Delete) and all(isinstance(t, ast.Subscript) for t in st.targets):
+                for t in st.targets:
+                    box = self.ev(t.value, env)
+                    if not isinstance(box, (list, dict)):
+                        raise Refused("del on a non-container")
+                    if isinstance(t.slice, ast.Slice):
+                        del box[(self.ev(t.slice.lower, env) if t.slice.lower else None):(self.ev(t.slice.upper, env) if t.slice.upper else None)]
+                    else:
+                        del box[self.ev(t.slice, env)]
             elif isinstance(st, ast.Break):
                 return ("break", None)
             elif isinstance(st, ast.Continue):
